@@ -102,8 +102,8 @@ def _vector(S_, v, what):
     if isinstance(v, tuple):
         return v
     n = sym_of(v) if not is_unknown(v) and not isinstance(v, DictValue) else None
-    if n is not None and n in S_.ev.buffers:
-        # an array filled element by element
+    if n is not None and S_.ev.is_array_object(n):
+        # an array filled element by element (here or in a helper that returns it)
         got = {}
         init = S_.ev.env.get("<init:%s>" % n)
         if isinstance(init, tuple):
@@ -255,17 +255,6 @@ def _opaque_helpers(ctx):
                     last = (dotted(n.func) or "").split(".")[-1]
                     if last in ("Array", "RawArray", "cpu_count", "SharedMemory"):
                         out.add(q)
-        # transitive: a helper that only wraps one of those
-        changed = True
-        while changed:
-            changed = False
-            for q, f in m.funcs.items():
-                if "." in q or "#" in q or q in out or q == "srs":
-                    continue
-                if any(isinstance(n, ast.Call) and isinstance(n.func, ast.Name) and n.func.id in out for n in ast.walk(f)) and len(f.body) <= 12 \
-                        and not any(isinstance(n, ast.Call) and (dotted(n.func) or "").split(".")[-1] == "lfilter" for n in ast.walk(f)):
-                    out.add(q)
-                    changed = True
         cache["v"] = frozenset(out)
     return cache["v"]
 
@@ -412,6 +401,17 @@ def _window(val):
     return kind, None, None
 
 
+def _check(ctx, ok, text, where, detail=None, values=(), **kw):
+    """ctx.check, except that a comparison which fails on values containing a call through something the evaluator could not resolve to a function
+    (an unresolved table entry, None) is reported as not decided (exit 2): the mismatch is the checker's, not the code's"""
+    if not ok:
+        un = X.unresolved(*values)
+        if un:
+            ctx.error(text + " - not decided: the value goes through a call the evaluator could not resolve", where, un[:3])
+            return False
+    return ctx.check(ok, text, where, detail, **kw)
+
+
 WANT = {"absacce": F.const(1), "relacce": F.const(0), "relvelo": F.const(0),
         "reldisp": -1 / (F.sym("wn") ** 2), "pvelo": -1 / F.sym("wn"), "pacce": F.const(-1)}
 
@@ -469,7 +469,7 @@ def _check_addback(ctx, st, site, S_, recs, where, want_func=None):
         else:
             ctx.error(f"{st}: {site}: no peak taken from the filter output", where)
         return
-    ctx.check(not bad, f"{st}: steady-state add-back in {site} equals DCgain*s1", rec["node"], bad or None, key=f"C03-R3|{st}|{site}")
+    _check(ctx, not bad, f"{st}: steady-state add-back in {site} equals DCgain*s1", rec["node"], bad or None, values=[v for v, _i, _s in uses], key=f"C03-R3|{st}|{site}")
     if want_func is not None:
         f = sym_of(cc["func"])
         if f is None or not ctx.src.has_func(SRS, f):
@@ -720,15 +720,17 @@ def r4_windows(ctx):
                 for kind, start, stn in f["starts"]:
                     if not start.equals(want):
                         bad.append({"use": kind, "line": getattr(stn, "lineno", None), "start": repr(start), "expected": repr(want)})
-            ctx.check(not bad, f"{tag}: the peak and the stored history are taken from "
-                      + ("the first row after the (possibly resampled) input signal" if time == "residual" else "row 0") + " of the filter output", fn, bad or None)
+            allx = [f["x"] for _s, f in paths]
+            _check(ctx, not bad, f"{tag}: the peak and the stored history are taken from "
+                   + ("the first row after the (possibly resampled) input signal" if time == "residual" else "row 0") + " of the filter output", fn, bad or None,
+                   values=allx + [s for _s, f in paths for _k, s, _n in f["starts"]])
             # (2) what is filtered
             if time == "primary":
                 ok = not any(f["padded"] for _s, f in paths)
-                ctx.check(ok, f"{tag}: the signal is filtered as it is (nothing appended)", fn)
+                _check(ctx, ok, f"{tag}: the signal is filtered as it is (nothing appended)", fn, values=allx)
             else:
                 ok = any(f["padded"] for _s, f in paths)
-                ctx.check(ok, f"{tag}: a cycle of the lowest non-zero frequency is appended to the signal before filtering", fn)
+                _check(ctx, ok, f"{tag}: a cycle of the lowest non-zero frequency is appended to the signal before filtering", fn, values=allx)
                 # (3) length of the appended block
                 bad = []
                 for S_, f in paths:
@@ -741,10 +743,11 @@ def r4_windows(ctx):
                             bad.append({"rows appended": repr(n), "expected": repr(want)})
                     except Unsupported as e:
                         bad.append(str(e))
-                ctx.check(not bad, f"{tag}: ceil(sample rate of the filtered signal / lowest non-zero frequency) rows are appended", fn, bad or None)
+                _check(ctx, not bad, f"{tag}: ceil(sample rate of the filtered signal / lowest non-zero frequency) rows are appended", fn, bad or None,
+                       values=allx + [f["sr"] for _s, f in paths])
             # (4) returned history, time vector, sample rate
             bad_h, bad_t, bad_sr = [], [], []
-            rows_set = []
+            rows_set, seen, unbound = [], [], []
             for S_, f in paths:
                 ret = S_.ret()
                 if not (isinstance(ret, tuple) and len(ret) == 2):
@@ -753,9 +756,10 @@ def r4_windows(ctx):
                 try:
                     ent = _resp_entries(S_, ret[1])
                 except Unsupported as e:
-                    bad_h.append(str(e))
+                    unbound.append(str(e)[:300])          # the dictionary is built where the evaluator does not follow: not a verdict
                     continue
                 start = rows_of(f["prim"]) if time == "residual" else F.const(0)
+                seen += [v for k in ("hist", "t", "sr") for v in ent.get(k, [])]
                 r = _alloc_rows(ent.get("hist", [None])[0])
                 if r is None or not r.equals(f["rows"] - start):
                     bad_h.append({"allocated": repr(ent.get("hist", [None])[0])[:200], "rows of the window": repr(f["rows"] - start)})
@@ -767,9 +771,13 @@ def r4_windows(ctx):
                 srv = ent.get("sr", [None])[-1]
                 if srv is None or is_unknown(srv) or isinstance(srv, (tuple, DictValue)) or not need(srv).equals(f["sr"]):
                     bad_sr.append({"resp['sr']": repr(srv), "sample rate of the coefficients": repr(f["sr"])})
-            ctx.check(not bad_h, f"{tag}: resp['hist'] has as many rows as the evaluated window of the filter output", fn, bad_h or None)
-            ctx.check(not bad_t, f"{tag}: resp['t'] spans the evaluated window at the sample rate of the filter", fn, bad_t or None)
-            ctx.check(not bad_sr, f"{tag}: resp['sr'] is the sample rate the coefficients were computed for", fn, bad_sr or None)
+            allv = allx + [f["sr"] for _s, f in paths] + seen
+            if unbound:
+                ctx.error(f"{tag}: the response dictionary srs returns is not built by code this rule can follow", fn, unbound[:2])
+                continue
+            _check(ctx, not bad_h, f"{tag}: resp['hist'] has as many rows as the evaluated window of the filter output", fn, bad_h or None, values=allv)
+            _check(ctx, not bad_t, f"{tag}: resp['t'] spans the evaluated window at the sample rate of the filter", fn, bad_t or None, values=allv)
+            _check(ctx, not bad_sr, f"{tag}: resp['sr'] is the sample rate the coefficients were computed for", fn, bad_sr or None, values=allv)
             if rolloff == "none":
                 serial_rows[time] = rows_set
     # parallel path: the shared history buffer has the rows of the serial one
@@ -783,7 +791,10 @@ def r4_windows(ctx):
                 for name, pos, _kw, _node in S_.ev.calls:
                     if pos and isinstance(pos[0], tuple) and len(pos[0]) == 3 and not any(is_unknown(z) or isinstance(z, tuple) for z in pos[0]):
                         got.append(pos[0][0])
-            ok = bool(got) and all(any(g.equals(r) for r in serial_rows[time]) for g in got) and all(any(g.equals(r) for g in got) for r in serial_rows[time])
+            if not got:
+                ctx.error(f"{tag}: no call that is given the (rows, signals, frequencies) shape of a shared history buffer found on the parallel path", fn)
+                continue
+            ok = all(any(g.equals(r) for r in serial_rows[time]) for g in got) and all(any(g.equals(r) for g in got) for r in serial_rows[time])
             ctx.check(ok, f"{tag}: the shared history buffer has the rows of the serial resp['hist']", fn,
                       None if ok else {"parallel": [repr(g) for g in got], "serial": [repr(r) for r in serial_rows[time]]})
         except Unsupported as e:
@@ -793,9 +804,10 @@ def r4_windows(ctx):
         for ic in ICS:
             tag = f"srs (stype={st}, ic={ic}, time=total)"
             try:
-                bad, n, extra, shifted = [], 0, [], []
+                bad, n, extra, shifted, allx = [], 0, [], [], []
                 for S_, recs in srs_regime(ctx, st=st, ic=ic, time="total"):
                     f = _facts(ctx, S_, recs)
+                    allx.append(f["x"])
                     if not _shifted(ic).equals(f["prim"]):
                         shifted.append({"filtered": repr(f["prim"])[:300], "rule": repr(_shifted(ic))})
                     if ic != "steady":
@@ -814,12 +826,12 @@ def r4_windows(ctx):
                     removed = (F.sym("sig") - f["prim"]) if ic == "steady" else F.const(0)
                     if not (f["pad"] + removed).equals(z[0]):
                         bad.append({"appended": repr(f["pad"]), "offset removed from the signal": repr(removed)})
-                ctx.check(not shifted, f"{tag}: the signal that is filtered is the input " + _SHIFT_WORDS[ic], fn, shifted or None)
+                _check(ctx, not shifted, f"{tag}: the signal that is filtered is the input " + _SHIFT_WORDS[ic], fn, shifted or None, values=allx)
                 if not n:
                     ctx.error(f"{tag}: no path appends a cycle", fn)
                     continue
-                ctx.check(not bad, f"{tag}: the appended cycle is zero base acceleration "
-                          + ("in the frame of the original signal (zeros minus the offset ic='steady' removed)" if ic == "steady" else "(plain zeros)"), fn, bad or None)
+                _check(ctx, not bad, f"{tag}: the appended cycle is zero base acceleration "
+                       + ("in the frame of the original signal (zeros minus the offset ic='steady' removed)" if ic == "steady" else "(plain zeros)"), fn, bad or None, values=allx)
                 if ic != "steady":
                     ctx.check(not extra, f"{tag}: nothing is added to the filter output (no steady-state values to restore)", fn, extra or None)
             except Unsupported as e:
@@ -1062,7 +1074,10 @@ def r7_eqsine(ctx):
                 ok = cnt[True] == (1, []) and cnt[False] == (0, [])
                 ctx.check(ok, f"{tag}: the returned response history is divided by Q once when eqsine is set and not at all otherwise", out[True].ret_node(),
                           None if ok else {"eqsine": cnt[True], "plain": cnt[False]})
-    ctx.check(n >= 4, f"eqsine rule bound to {n} (getresp, parallel) regimes", fn, nontrivial=False)
+    if n >= 4:
+        ctx.ok(f"eqsine rule bound to {n} (getresp, parallel) regimes", fn, nontrivial=False)
+    else:
+        ctx.error(f"eqsine rule bound to {n} of 4 (getresp, parallel) regimes", fn)       # the checker's reach, not a verdict about the code
 
 
 # ---------------------------------------------------------------------------------------------------------------- peak selectors
@@ -1098,10 +1113,13 @@ def r8_peak_selectors(ctx):
     for key in sorted(want):
         name = _peak_function(ctx, key)
         if name is None:
-            ctx.fail(f"peak '{key}': _process_inputs selects a module-level selector function", pi, repr(ctx.__dict__["_c03_peak"][key][1]))
+            # not a verdict about the code: a selector the evaluator cannot follow (an unresolved table, a lambda, an imported function)
+            ctx.error(f"peak '{key}': the selector `_process_inputs` returns is not a module-level function this rule can evaluate", pi,
+                      repr(ctx.__dict__["_c03_peak"][key][1])[:300])
             continue
         sel[key] = name
-    ctx.check(len(sel) == len(want), "_process_inputs: each of abs, pos, poss, neg, negs, rms selects a function", pi, sorted(sel))
+    if len(sel) == len(want):
+        ctx.ok("_process_inputs: each of abs, pos, poss, neg, negs, rms selects a function", pi, sorted(sel))
     for key in sorted(sel):
         fn = ctx.src.func(SRS, sel[key])
         params = [a.arg for a in fn.args.posonlyargs + fn.args.args]
